@@ -91,6 +91,7 @@ type interpreter struct {
 	eng                *Engine
 	ps                 *PathState
 	inited             map[*ssa.Package]bool // packages whose init has run on this path
+	callpos            token.Pos             // position of the call being dispatched
 }
 
 type deferred struct {
@@ -580,6 +581,7 @@ func loc(fset *token.FileSet, pos token.Pos) string {
 // and lexical environment env, returning its result.
 // callpos is the position of the callsite.
 func callSSA(i *interpreter, caller *frame, callpos token.Pos, fn *ssa.Function, args []value, env []value) value {
+	i.callpos = callpos
 	if i.mode&EnableTracing != 0 {
 		fset := fn.Prog.Fset
 		// TODO(adonovan): fix: loc() lies for external functions.
